@@ -238,6 +238,9 @@ var c14Cfgs = []c14IFS{
 	// IFS characters above U+00FF whose low byte is an ASCII character
 	// (U+3000: NUL, U+FF0C: form feed, U+0120: space, U+4E2D: '-')
 	{true, "\u3000\uff0c", "", "\u3000"}, {true, "\u0120\u4e2d", "", "\u4e2d"},
+	// U+FFFD is a character like any other; decoders also use it for bytes
+	// that are not valid UTF-8, which are different characters
+	{true, "\uFFFD ", " ", "\uFFFD"},
 }
 
 func TestC14(t *testing.T) {
@@ -259,6 +262,8 @@ func TestC14(t *testing.T) {
 		{"Q", func(w, n string) (ref.Seg, bool) { return ref.Seg{Text: n + w, Quoted: true}, n+w != "" }},
 		{"e", func(w, n string) (ref.Seg, bool) { return ref.Seg{Quoted: true}, true }},
 	}
+	// for IFS characters that have an ill-formed twin: "\xfe" next to "\xff", "\xff" next to U+FFFD
+	twin := map[string]string{"\xff": "\xfe", "\uFFFD": "\xff"}
 	maxn := 6
 	if thorough() {
 		maxn = 7
@@ -278,6 +283,21 @@ func TestC14(t *testing.T) {
 				}
 				if !ok {
 					continue
+				}
+				if tw, has := twin[cfg.nws]; has && len(prefix) <= 4 {
+					// the same word with the twin in place of the ordinary character
+					c2 := mkC14(cfg.val, cfg.set, "ast")
+					for _, sg := range c.Segs {
+						if sg.Text == "x" && !sg.Quoted {
+							sg.Text = tw
+						}
+						c2.Segs = append(c2.Segs, sg)
+					}
+					if err := checkC14(c2); err != nil {
+						fail(t, "C14", "split", c2, "%v", err)
+					}
+					st.EvalN(1, 1)
+					st.Class("ill_formed_twin_of_an_ifs_character")
 				}
 				for _, via := range []string{"ast", "parse"} {
 					c.Via = via
@@ -430,7 +450,10 @@ func TestC14(t *testing.T) {
 		}
 		alpha = append(alpha, " ", ",", ":", "\t", "\n")
 		if strings.Contains(ifs, "\xff") {
-			alpha = append(alpha, "\xff", "\xff\xff")
+			alpha = append(alpha, "\xff", "\xff\xff", "\xfe", "\uFFFD", "\x80")
+		}
+		if strings.Contains(ifs, "\uFFFD") {
+			alpha = append(alpha, "\xff", "\xc3", "a\xffb", "\uFFFD")
 		}
 		for _, r := range ifs {
 			if r > 0xff && r != utf8.RuneError {
